@@ -929,11 +929,19 @@ class Lifted:
         return self._lifted_helpers[key]
 
     def method(self, name):
+        """Sibling method `name`, callable as m(receiver, *args): a static method drops the receiver, a class method gets the class name."""
         key = "method:" + name
         if key not in self._lifted_helpers:
-            h = Lifted(self.class_methods[name], self.funcs, self.consts, self.env, self.hook)
+            node = self.class_methods[name]
+            h = Lifted(node, self.funcs, self.consts, self.env, self.hook)
             h.funcs, h.env = self.funcs, self.env
-            self._lifted_helpers[key] = h
+            decos = [ast.unparse(d) for d in node.decorator_list]
+            if "staticmethod" in decos:
+                self._lifted_helpers[key] = lambda recv, *a, **k: h(*a, **k)
+            elif "classmethod" in decos:
+                self._lifted_helpers[key] = lambda recv, *a, **k: h(type(recv).__name__, *a, **k)
+            else:
+                self._lifted_helpers[key] = h
         return self._lifted_helpers[key]
 
     def bind(self, args, kw):
